@@ -334,6 +334,32 @@ def b_cases():
       H + "struct Foo:\n  0 [+1]  enum  foo:\n    BAR = 1\n  1 [+1]  Foo  other\n", None)
     C("plain reference first, then the inline enum",
       H + "struct Foo:\n  0 [+1]  Foo  other\n  1 [+1]  enum  foo:\n    BAR = 1\n", None)
+    # inline types, systematically: kind of the inline type x where its field is declared (directly in the structure,
+    # in an anonymous bits, in a named inline struct, in a named inline bits) x another type of the same name visible
+    # (none, at module level, in the prelude, the enclosing structure itself).  The field's own type is always the
+    # inline one: accepted, and the type reference is bound to a type nested in the structure, never to the other one.
+    inl_body = {"enum": "enum  %s:\n%s  VAL = 1\n", "bits": "bits  %s:\n%s  0 [+8]  UInt  low\n", "struct": "struct  %s:\n%s  0 [+1]  UInt  low\n"}
+    for kind in ("enum", "bits", "struct"):
+        for where in ("direct", "anonymous bits", "named inline struct", "named inline bits"):
+            if kind == "struct" and where in ("anonymous bits", "named inline bits"):
+                continue  # no byte-oriented members in bits
+            for clash in ("none", "module", "prelude", "enclosing"):
+                fname = {"none": "probe_field", "module": "other_type", "prelude": "flag", "enclosing": "packet"}[clash]
+                tname = "".join(w.capitalize() for w in fname.split("_"))
+                pre = ("enum OtherType:\n  OV = 1\n" if clash == "module" else "")
+
+                def decl(ind, start):
+                    pad = " " * ind
+                    return pad + "%s [+1]  " % start + inl_body[kind] % (fname, pad + "  ")
+                if where == "direct":
+                    body = decl(2, 0)
+                elif where == "anonymous bits":
+                    body = "  0 [+1]  bits:\n" + decl(4, 0).replace("[+1]", "[+8]")
+                elif where == "named inline struct":
+                    body = "  0 [+1]  struct  holder:\n" + decl(4, 0)
+                else:
+                    body = "  0 [+1]  bits  holder:\n" + decl(4, 0).replace("[+1]", "[+8]")
+                C("inline %s %s, same-named type: %s" % (kind, where, clash), H + pre + "struct Packet:\n" + body, ("inline", fname, tname))
     # runtime parameters: names of the structure's own scope
     for desc, body, want in [
         ("parameter referenced in its structure", "struct Par(pp: UInt:8):\n  0 [+pp]  UInt:8[]  probe\n", (("Par",), "probe", ("Par", "pp"))),
@@ -419,6 +445,29 @@ def run_b(_=None):
                 out["candidates"].append(dict(desc, rejected=False, bound=list(bad[3]),
                                               what="%s %s.%s bound to %s, the scoping rule designates %s" % (
                                                   bad[0], ".".join(bad[1]), bad[2], list(bad[3]), list(bad[4]))))
+            return
+        if want[0] == "inline":
+            _, fname, tname = want
+            found = []
+
+            def visit(field):
+                if field.name.name.text == fname and field.type is not None and field.type.has_field("atomic_type"):
+                    found.append(field)
+            traverse_ir.fast_traverse_ir_top_down(ir, [ir_data.Field], visit)
+            bad = None
+            if not found:
+                bad = "field %s not found" % fname
+            for f in found:
+                cn = f.type.atomic_type.reference.canonical_name
+                path = tuple(cn.object_path)
+                target = ir_util.find_object(f.type.atomic_type.reference, ir)
+                if not (cn.module_file == "probe.emb" and len(path) >= 2 and path[0] == "Packet" and path[-1] == tname
+                        and isinstance(target, ir_data.TypeDefinition)):
+                    bad = "the inline field %s is bound to %s, not to its own inline type Packet...%s" % (fname, list(path), tname)
+            if bad is None:
+                out["discharged"] += 1
+            else:
+                out["candidates"].append(dict(desc, rejected=False, what=bad))
             return
         if want[0] == "type":
             _, owner, fname, (mod, *path) = want
@@ -509,7 +558,7 @@ def main(tier):
                                  "eight reference forms (bare, dotted, prelude)",
                    "other": "own fields x abbreviation x reference; members through a dot; enum values (qualified, bare, nested); duplicates in one scope "
                             "and equal names in different scopes; one import (qualified, bare, wrong alias, clash with a local name, equal type paths in both modules); "
-                            "members through aliases of fields, of paths and of aliases; inline types; runtime parameters; `this`",
+                            "members through aliases of fields, of paths and of aliases; inline types (kind x declared directly / in an anonymous bits / in a named inline struct or bits x a same-named type at module level, in the prelude, or the enclosing structure); runtime parameters; `this`",
                    "outside": "longer paths and deeper nesting than the templates; `$next`; names across more than one import"},
         "note": "finite domain: the paths enumerate every combination; the solver decides path feasibility of the choices and nothing else",
     })
